@@ -9,6 +9,16 @@ import sys
 import threading
 
 
+def _stdlib_chunks(n, chunksize):
+    """what multiprocessing.pool.Pool.map does with an explicit chunksize: None / positive -> every item runs;
+    0 -> MapResult is complete at once and no task is created (the result is [None] * n); negative -> islice raises"""
+    if chunksize is None or chunksize > 0:
+        return True
+    if chunksize == 0:
+        return False
+    raise ValueError("Stop argument for islice() must be None or an integer: 0 <= x <= sys.maxsize.")
+
+
 class PermutedPool:
     """`pool.map` semantics with the tasks executed one after another in a seeded permutation"""
 
@@ -19,8 +29,10 @@ class PermutedPool:
     def __call__(self, poolsize):
         return self
 
-    def map(self, func, iterable):
+    def map(self, func, iterable, chunksize=None):
         items = list(iterable)
+        if not _stdlib_chunks(len(items), chunksize):
+            return [None] * len(items)
         order = list(range(len(items)))
         random.Random(self.seed).shuffle(order)
         self.order = order
@@ -57,11 +69,13 @@ class SeededInterleavingPool:
     def close(self):
         pass
 
-    def map(self, func, iterable):
+    def map(self, func, iterable, chunksize=None):
         items = list(iterable)
         n = len(items)
         if n == 0:
             return []
+        if not _stdlib_chunks(n, chunksize):
+            return [None] * n
         rng = random.Random(self.seed)
         sems = [threading.Semaphore(0) for _ in range(n)]
         alive = set(range(n))
